@@ -162,7 +162,9 @@ def _bytes_left_at_check(bad: bytes):
 
 
 def damage_check(W, data, pj):
-    """Every sampled single-byte damage and every truncation of a checksummed file must make Index() raise."""
+    """Every sampled single-byte damage and every truncation of a file with a real trailer must make
+    Index() raise -- whatever the reader's own configuration: Index(path) and, for every third
+    candidate and every truncation, Index(path, skip_hash=True) (index.skipHash / feature.manyFiles)."""
     from dulwich.index import Index
     fails, trials = [], 0
     p = W.path("dmg")
@@ -171,25 +173,89 @@ def damage_check(W, data, pj):
              for off in damage_positions(n) for x in (0x01, 0x80)]
     cands += [(f"truncated by {k}", n - k, bytes(data[:n - k])) for k in (1, 7, 19, 20, 21, 28, n // 2) if 0 < k < n]
     seen = set()
-    for what, off, bad in cands:
+    for ci, (what, off, bad) in enumerate(cands):
         with open(p, "wb") as f:
             f.write(bad)
-        trials += 1
-        try:
-            Index(p)
-        except Exception:  # noqa: BLE001 - any refusal counts as detection
-            continue
-        left = _bytes_left_at_check(bad)
-        if left is not None and left < 20:
-            cl = SHORT_TRAILER
-        else:
-            cl = f"ChecksumDetects({'truncation' if what.startswith('trunc') else region_of(pj, off, n)})"
-        if cl not in seen:
-            seen.add(cl)
-            fails.append((cl, f"{what} of a {n}-byte index accepted silently ({left} bytes were left for the trailer)"))
+        readers = [False] + ([True] if ci % 3 == 0 or what.startswith("trunc") else [])
+        for rsk in readers:
+            trials += 1
+            try:
+                Index(p, skip_hash=rsk)
+            except Exception:  # noqa: BLE001 - any refusal counts as detection
+                continue
+            left = _bytes_left_at_check(bad)
+            if left is not None and left < 20 and not rsk:
+                cl = SHORT_TRAILER
+            else:
+                cl = f"ChecksumDetects({'truncation' if what.startswith('trunc') else region_of(pj, off, n)}{', reader skip_hash=True' if rsk else ''})"
+            if cl not in seen:
+                seen.add(cl)
+                fails.append((cl, f"{what} of a {n}-byte index with a SHA-1 trailer accepted silently by Index(path, skip_hash={rsk}) "
+                                  f"({left} bytes were left for the trailer)"))
     if os.path.exists(p):
         os.unlink(p)
     return fails, trials
+
+
+def reader_config_check(ctx):
+    """Reader configuration x trailer kind through the public entry points, once per run:
+    files with a real and with a zero trailer are read by Index(skip_hash=False/True) and by
+    Repo.open_index() with and without feature.manyFiles / index.skipHash; undamaged files read the same
+    entries; a damaged file with a real trailer is refused by every reader."""
+    from dulwich.index import Index, IndexEntry
+    from dulwich.repo import Repo
+    d = ctx.tmpdir("rc")
+    n = 0
+    ents = {b"a": IndexEntry((1, 2), (3, 4), 5, 6, 0o100644, 7, 8, 9, b"11" * 20, 0, 0),
+            b"dir/b": IndexEntry((1, 2), (3, 4), 5, 6, 0o100755, 7, 8, 9, b"22" * 20, 0, 0)}
+    for cfg_name, cfg in (("default", []), ("feature.manyFiles=true", [((b"feature",), b"manyFiles", b"true")]),
+                          ("index.skipHash=true", [((b"index",), b"skipHash", b"true")])):
+        for wsk in (False, True):
+            rd = os.path.join(d, f"r{n}")
+            n += 1
+            os.makedirs(rd)
+            repo = Repo.init(rd)
+            c = repo.get_config()
+            for sec, k, v in cfg:
+                c.set(sec, k, v)
+            c.write_to_path()
+            ip = os.path.join(rd, ".git", "index")
+            w = Index(ip, read=False, skip_hash=wsk)
+            for k, v in ents.items():
+                w[k] = v
+            w.write()
+            with open(ip, "rb") as f:
+                data = f.read()
+            for reader, open_it in (("Index(skip_hash=False)", lambda: Index(ip)), ("Index(skip_hash=True)", lambda: Index(ip, skip_hash=True)),
+                                    (f"Repo.open_index() [{cfg_name}]", lambda: Repo(rd).open_index())):
+                ctx.count()
+                try:
+                    got = sorted(open_it())
+                except Exception as e:  # noqa: BLE001
+                    got = f"{exc_name(e)}: {e}"
+                if got != sorted(ents):
+                    report(ctx, f"dulwich/index.py:Index.read|RoundTrip(reader config)|{reader} trailer={'zero' if wsk else 'sha1'}",
+                           f"undamaged index written with skip_hash={wsk} read by {reader}: {got}", {"mode": "C", "reader": reader, "wsk": wsk})
+                if wsk:
+                    continue
+                for off in (13, 52, len(data) // 2, len(data) - 30):
+                    bad = bytearray(data)
+                    bad[off] ^= 0x40
+                    with open(ip, "wb") as f:
+                        f.write(bad)
+                    ctx.count()
+                    try:
+                        open_it()
+                    except Exception:  # noqa: BLE001
+                        continue
+                    finally:
+                        with open(ip, "wb") as f:
+                            f.write(data)
+                    report(ctx, f"dulwich/index.py:Index.read|ChecksumDetects(reader config)|{reader.split(' [')[0]} {cfg_name if 'Repo' in reader else ''}".strip(),
+                           f"byte {off} of an index with a SHA-1 trailer damaged; {reader} accepts it silently", {"mode": "C", "reader": reader, "off": off})
+                    break
+            repo.close()
+    shutil.rmtree(d, ignore_errors=True)
 
 
 # --------------------------------------------------------------------------- mode R: one TLC case
@@ -214,6 +280,12 @@ def check_case(W, out, do_damage=False):
                                    f"{[L.describe(e) for e in rb][:4]} expected {[L.describe(e) for e in expect][:4]}"))
         except Exception as e:  # noqa: BLE001
             r["fails"].append(("RoundTrip", f"Index(path) after Index.write() raised {exc_name(e)}: {e}"))
+        try:                       # the reader of the other configuration reads the same entries
+            _, rbx = L.dw_read(p, not skip)
+            if not same_set(rbx, expect):
+                r["fails"].append(("RoundTrip(reader config)", f"Index(path, skip_hash={not skip}) on a file written with skip_hash={skip} yields different entries"))
+        except Exception as e:  # noqa: BLE001
+            r["fails"].append(("RoundTrip(reader config)", f"Index(path, skip_hash={not skip}) on a file written with skip_hash={skip} raised {exc_name(e)}: {e}"))
         pj = L.proj_parse(dwb)
         if pj["ok"]:
             if not L.ordered_keys(pj["entries"]) or len(pj["entries"]) != len(expect):
@@ -1137,6 +1209,11 @@ def run(ctx):
     ctx.add_tlc("IndexFmt_neg_stalestage.cfg (negative control: written stage = slot OR stage bits carried by the entry object)", r, require_ok=False)
     if "StageFromSlot" not in r.violated:
         raise MachineryError("negative control IndexFmt_neg_stalestage.cfg did not break StageFromSlot")
+    r = tlc.run("IndexFmt.tla", "IndexFmt_neg_readerskips.cfg", workers=4, timeout=600)
+    ctx.add_tlc("IndexFmt_neg_readerskips.cfg (negative control: a reader configured with skipHash ignores the trailer)", r, require_ok=False)
+    if "ChecksumInv" not in r.violated:
+        raise MachineryError("negative control IndexFmt_neg_readerskips.cfg did not break ChecksumInv")
+    reader_config_check(ctx)
     if not git_available():
         ctx.assumptions.append("C git not found: every git-dependent clause degraded to specification vs dulwich only")
     # 2. spec -> code on every enumerated case
@@ -1189,6 +1266,10 @@ def replay(ctx, path):
         if not r["fails"]:
             print("  all clauses hold now")
         return 1 if r["fails"] else 0
+    if obj.get("mode") == "C":
+        ctx.max_report = 10
+        reader_config_check(ctx)
+        return 1 if ctx.violations else 0
     if obj.get("mode") == "T":
         inp = obj["input"]
         if obj.get("scenario"):
